@@ -20,6 +20,14 @@ the bytes of the file are the two fields of `SameLayout`; every bound on an addr
 `WF m` (through the instance `sections_slice` and `WFacts.fileLen`), so nothing is assumed about
 the length of `file`.
 
+The geometry chain (`stream_bounds` … `readLod_eq`, `readLods_core`) uses the second field alone:
+it is proved in the namespace `HasSections` (`HasSections m file` = the sections of `m` lie at
+`dataStart m`; statements about `readLod file.toArray (fileHeader m) (modelData m)`, whatever the
+header stage returns on `file`), and the `SameLayout.…` lemmas are its instances through
+`SameLayout.geom`.  The first field is used only at the very end (`SameLayout.parse_core`).
+`Proofs/MdlRedundant.lean` combines the `HasSections` chain with files whose header records differ
+from `fileHeader m` / `modelData m` in fields the reader never looks at.
+
 The SoftFloat functions are never unfolded.  The internal statements are about the explicit rows
 `lodRowOf m i l` / `meshRowOf m i l d mesh`; `lods_row` / `meshes_row` / `decls_row` identify them
 with the entries of `(modelData m).lods` / `.meshes` / `.decls`.
@@ -352,6 +360,16 @@ theorem sections_slice (m : AbstractModel) : IsSlice (encodeMdl m) (dataStart m)
     length_headers m⟩
   simp [encodeMdl]
 
+/-- the geometry half of `SameLayout`: the vertex / index sections of `m` occupy the bytes of `file`
+from `dataStart m` on.  Everything the reader does after the two header parses (`readLod` and below,
+on the header records of `m`) is determined by this alone — the lemmas of the namespace
+`HasSections`; the lemmas of the namespace `SameLayout` are their instances through
+`SameLayout.geom`.  Nothing is said here about what the header stage returns on `file`
+(`Proofs/MdlRedundant.lean` uses this for files whose header records differ from those of `m` in
+fields the reader never looks at). -/
+structure HasSections (m : AbstractModel) (file : Bytes) : Prop where
+  sec : IsSlice file (dataStart m) (sections m)
+
 /-- `file` has the layout of `m`: the header stage of the reader returns the file header and the
 runtime block of `m` (what is left behind the runtime block is not constrained: the reader drops
 it), and the geometry sections of `m` occupy the bytes of `file` from `dataStart m` on.  Nothing
@@ -361,6 +379,9 @@ structure SameLayout (m : AbstractModel) (file : Bytes) : Prop where
   hdr : ∃ rest rest', parseFileHeader file = .ok (fileHeader m, rest) ∧
     parseModelData (fileHeader m) rest = .ok (modelData m, rest')
   sec : IsSlice file (dataStart m) (sections m)
+
+theorem SameLayout.geom {m : AbstractModel} {file : Bytes} (L : SameLayout m file) :
+    HasSections m file := ⟨L.sec⟩
 
 /-- the encoded model has its own layout -/
 theorem sameLayout_encode (m : AbstractModel) (h : WF m = true) : SameLayout m (encodeMdl m) :=
@@ -615,7 +636,7 @@ theorem row_strides (m : AbstractModel) (i : Nat) (l : ALod) (d : Nat) (mesh : A
 
 /-- the facts about one stream needed by every address computation (the bound on the address comes
 from `WF m`, the slice from the layout of `file`) -/
-theorem SameLayout.stream_bounds {m : AbstractModel} {file : Bytes} (L : SameLayout m file)
+theorem HasSections.stream_bounds {m : AbstractModel} {file : Bytes} (L : HasSections m file)
     (h : WF m = true) (i : Nat) (l : ALod)
     (hl : m.lods[i]? = some l) (d : Nat) (mesh : AMesh) (hm : l.meshes[d]? = some mesh)
     (j : Nat) (s : AStream) (hs : mesh.streams[j]? = some s) :
@@ -630,6 +651,15 @@ theorem SameLayout.stream_bounds {m : AbstractModel} {file : Bytes} (L : SameLay
   exact ⟨by omega, MF.dataLen s (mem_of_getElem? hs), by unfold streamAddr; omega,
     stream_slice_of m L.sec i l hl d mesh hm j s hs⟩
 
+theorem SameLayout.stream_bounds {m : AbstractModel} {file : Bytes} (L : SameLayout m file)
+    (h : WF m = true) (i : Nat) (l : ALod)
+    (hl : m.lods[i]? = some l) (d : Nat) (mesh : AMesh) (hm : l.meshes[d]? = some mesh)
+    (j : Nat) (s : AStream) (hs : mesh.streams[j]? = some s) :
+    j < 3 ∧ s.data.length = mesh.vertexCount.toNat * s.stride.toNat ∧
+      streamAddr m i l d mesh j + s.data.length < 4294967296 ∧
+      IsSlice file (streamAddr m i l d mesh j) s.data :=
+  L.geom.stream_bounds h i l hl d mesh hm j s hs
+
 theorem stream_bounds (m : AbstractModel) (h : WF m = true) (i : Nat) (l : ALod)
     (hl : m.lods[i]? = some l) (d : Nat) (mesh : AMesh) (hm : l.meshes[d]? = some mesh)
     (j : Nat) (s : AStream) (hs : mesh.streams[j]? = some s) :
@@ -643,7 +673,7 @@ theorem mul_succ_le {k vc st : Nat} (hk : k < vc) : st * k + st ≤ vc * st := b
   rw [Nat.succ_mul, Nat.mul_comm k st] at this
   exact this
 
-theorem SameLayout.element_address' {m : AbstractModel} {file : Bytes} (L : SameLayout m file)
+theorem HasSections.element_address' {m : AbstractModel} {file : Bytes} (L : HasSections m file)
     (h : WF m = true) (i : Nat) (l : ALod)
     (hl : m.lods[i]? = some l) (d : Nat) (mesh : AMesh) (hm : l.meshes[d]? = some mesh)
     (e : VertexElement) (he : e ∈ mesh.decl) (s : AStream)
@@ -679,6 +709,18 @@ theorem SameLayout.element_address' {m : AbstractModel} {file : Bytes} (L : Same
   rw [hav']
   exact hsl.readAt _ n (by rw [hdl, Nat.mul_comm k]; omega)
 
+theorem SameLayout.element_address' {m : AbstractModel} {file : Bytes} (L : SameLayout m file)
+    (h : WF m = true) (i : Nat) (l : ALod)
+    (hl : m.lods[i]? = some l) (d : Nat) (mesh : AMesh) (hm : l.meshes[d]? = some mesh)
+    (e : VertexElement) (he : e ∈ mesh.decl) (s : AStream)
+    (hs : mesh.streams[e.stream.toNat]? = some s) (k : Nat) (hk : k < mesh.vertexCount.toNat) :
+    ∃ a, elementAddress (lodRowOf m i l) (meshRowOf m i l d mesh) e k.toUInt16 = .ok a ∧
+      a.toNat = streamAddr m i l d mesh e.stream.toNat + e.offset.toNat + s.stride.toNat * k ∧
+      ∀ n, e.offset.toNat + n ≤ s.stride.toNat →
+        readAt file.toArray a.toNat n =
+          some ((s.data.drop (k * s.stride.toNat + e.offset.toNat)).take n) :=
+  L.geom.element_address' h i l hl d mesh hm e he s hs k hk
+
 theorem element_address' (m : AbstractModel) (h : WF m = true) (i : Nat) (l : ALod)
     (hl : m.lods[i]? = some l) (d : Nat) (mesh : AMesh) (hm : l.meshes[d]? = some mesh)
     (e : VertexElement) (he : e ∈ mesh.decl) (s : AStream)
@@ -691,7 +733,7 @@ theorem element_address' (m : AbstractModel) (h : WF m = true) (i : Nat) (l : AL
   (sameLayout_encode m h).element_address' h i l hl d mesh hm e he s hs k hk
 
 /-- **element address**, in every file with the layout of `m` -/
-theorem SameLayout.element_address {m : AbstractModel} {file : Bytes} (L : SameLayout m file)
+theorem HasSections.element_address {m : AbstractModel} {file : Bytes} (L : HasSections m file)
     (h : WF m = true) (i : Nat) (l : ALod)
     (hl : m.lods[i]? = some l) (d : Nat) (mesh : AMesh) (hm : l.meshes[d]? = some mesh)
     (lod : MeshLod) (hlod : (modelData m).lods[i]? = some lod)
@@ -712,6 +754,23 @@ theorem SameLayout.element_address {m : AbstractModel} {file : Bytes} (L : SameL
   rw [show psum meshCountOf m.lods i = ((m.lods.take i).map (·.meshes.length)).sum from rfl, hrow] at h2
   cases h1; cases h2
   exact L.element_address' h i l hl d mesh hm e he s hs k hk
+
+theorem SameLayout.element_address {m : AbstractModel} {file : Bytes} (L : SameLayout m file)
+    (h : WF m = true) (i : Nat) (l : ALod)
+    (hl : m.lods[i]? = some l) (d : Nat) (mesh : AMesh) (hm : l.meshes[d]? = some mesh)
+    (lod : MeshLod) (hlod : (modelData m).lods[i]? = some lod)
+    (row : Mesh) (hrow : (modelData m).meshes[((m.lods.take i).map (·.meshes.length)).sum + d]? = some row)
+    (e : VertexElement) (he : e ∈ mesh.decl) (s : AStream)
+    (hs : mesh.streams[e.stream.toNat]? = some s) (k : Nat) (hk : k < mesh.vertexCount.toNat) :
+    ∃ a, elementAddress lod row e k.toUInt16 = .ok a ∧
+      a.toNat = dataStart m + ((m.lods.take i).map (fun l => lodVertexSize l + lodIndexSize l)).sum +
+        ((l.meshes.take d).map streamSize).sum +
+        ((mesh.streams.take e.stream.toNat).map (·.data.length)).sum +
+        e.offset.toNat + s.stride.toNat * k ∧
+      ∀ n, e.offset.toNat + n ≤ s.stride.toNat →
+        readAt file.toArray a.toNat n =
+          some ((s.data.drop (k * s.stride.toNat + e.offset.toNat)).take n) :=
+  L.geom.element_address h i l hl d mesh hm lod hlod row hrow e he s hs k hk
 
 /-- **element address** (exported as `c06_element_address`) -/
 theorem element_address (m : AbstractModel) (h : WF m = true) (i : Nat) (l : ALod)
@@ -782,7 +841,7 @@ which the recorded finding on `decodeElement` does not apply -/
 def noWeightsByte4 (m : AbstractModel) : Bool :=
   m.lods.all fun l => l.meshes.all noWeightsByte4Mesh
 
-theorem SameLayout.readVertex_eq {m : AbstractModel} {file : Bytes} (L : SameLayout m file)
+theorem HasSections.readVertex_eq {m : AbstractModel} {file : Bytes} (L : HasSections m file)
     (h : WF m = true) (i : Nat) (l : ALod)
     (hl : m.lods[i]? = some l) (d : Nat) (mesh : AMesh) (hm : l.meshes[d]? = some mesh)
     (hw : noWeightsByte4Mesh mesh = true) (k : Nat) (hk : k < mesh.vertexCount.toNat) :
@@ -811,8 +870,16 @@ theorem SameLayout.readVertex_eq {m : AbstractModel} {file : Bytes} (L : SameLay
   rw [ha, R.ok_bind, decodeElement_std _ _ e _ acc (hread _ hoff') hsup hn]
   simp only [hs]
 
+theorem SameLayout.readVertex_eq {m : AbstractModel} {file : Bytes} (L : SameLayout m file)
+    (h : WF m = true) (i : Nat) (l : ALod)
+    (hl : m.lods[i]? = some l) (d : Nat) (mesh : AMesh) (hm : l.meshes[d]? = some mesh)
+    (hw : noWeightsByte4Mesh mesh = true) (k : Nat) (hk : k < mesh.vertexCount.toNat) :
+    readVertex file.toArray (lodRowOf m i l) (meshRowOf m i l d mesh) mesh.decl k.toUInt16 =
+      .ok (vertexOf mesh k) :=
+  L.geom.readVertex_eq h i l hl d mesh hm hw k hk
+
 /-- **all vertices of a mesh** -/
-theorem SameLayout.readVertices_eq {m : AbstractModel} {file : Bytes} (L : SameLayout m file)
+theorem HasSections.readVertices_eq {m : AbstractModel} {file : Bytes} (L : HasSections m file)
     (h : WF m = true) (i : Nat) (l : ALod)
     (hl : m.lods[i]? = some l) (d : Nat) (mesh : AMesh) (hm : l.meshes[d]? = some mesh)
     (hw : noWeightsByte4Mesh mesh = true) :
@@ -820,6 +887,14 @@ theorem SameLayout.readVertices_eq {m : AbstractModel} {file : Bytes} (L : SameL
       .ok (verticesOf mesh) := by
   unfold readVertices verticesOf
   exact mapM_range_ok _ _ _ (fun k hk => L.readVertex_eq h i l hl d mesh hm hw k hk)
+
+theorem SameLayout.readVertices_eq {m : AbstractModel} {file : Bytes} (L : SameLayout m file)
+    (h : WF m = true) (i : Nat) (l : ALod)
+    (hl : m.lods[i]? = some l) (d : Nat) (mesh : AMesh) (hm : l.meshes[d]? = some mesh)
+    (hw : noWeightsByte4Mesh mesh = true) :
+    readVertices file.toArray (lodRowOf m i l) (meshRowOf m i l d mesh) mesh.decl =
+      .ok (verticesOf mesh) :=
+  L.geom.readVertices_eq h i l hl d mesh hm hw
 
 theorem noWeightsByte4_mesh (m : AbstractModel) (hw : noWeightsByte4 m = true) {i : Nat} {l : ALod}
     (hl : m.lods[i]? = some l) {d : Nat} {mesh : AMesh} (hm : l.meshes[d]? = some mesh) :
@@ -858,7 +933,7 @@ theorem header_indexOffset (m : AbstractModel) (h : WF m = true) (i : Nat) (l : 
   rfl
 
 /-- **indices**: the index address of the reader points at the mesh's indices -/
-theorem SameLayout.index_read {m : AbstractModel} {file : Bytes} (L : SameLayout m file)
+theorem HasSections.index_read {m : AbstractModel} {file : Bytes} (L : HasSections m file)
     (h : WF m = true) (i : Nat) (l : ALod)
     (hl : m.lods[i]? = some l) (d : Nat) (mesh : AMesh) (hm : l.meshes[d]? = some mesh) :
     ∃ ioff, (fileHeader m).indexOffsets.get? i = some ioff ∧
@@ -882,6 +957,16 @@ theorem SameLayout.index_read {m : AbstractModel} {file : Bytes} (L : SameLayout
   rw [Nat.add_zero, List.drop_zero, ← length_flatMap_putU16le, List.take_length] at this
   rw [← length_flatMap_putU16le]
   exact this
+
+theorem SameLayout.index_read {m : AbstractModel} {file : Bytes} (L : SameLayout m file)
+    (h : WF m = true) (i : Nat) (l : ALod)
+    (hl : m.lods[i]? = some l) (d : Nat) (mesh : AMesh) (hm : l.meshes[d]? = some mesh) :
+    ∃ ioff, (fileHeader m).indexOffsets.get? i = some ioff ∧
+      ioff.toNat + 2 * (meshRowOf m i l d mesh).startIndex.toNat < 4294967296 ∧
+      (meshRowOf m i l d mesh).indexCount.toNat = mesh.indices.length ∧
+      readAt file.toArray (ioff.toNat + 2 * (meshRowOf m i l d mesh).startIndex.toNat)
+        (2 * mesh.indices.length) = some (mesh.indices.flatMap putU16le) :=
+  L.geom.index_read h i l hl d mesh hm
 
 theorem index_read (m : AbstractModel) (h : WF m = true) (i : Nat) (l : ALod)
     (hl : m.lods[i]? = some l) (d : Nat) (mesh : AMesh) (hm : l.meshes[d]? = some mesh) :
@@ -979,7 +1064,7 @@ theorem range_map_getD [Inhabited α] (l : List α) (f : α → β) :
     simp [List.getElem?_eq_getElem h2]
 
 /-- one `stride`-sized chunk of a stream, as read by `readStreams` -/
-theorem SameLayout.stream_chunk {m : AbstractModel} {file : Bytes} (L : SameLayout m file)
+theorem HasSections.stream_chunk {m : AbstractModel} {file : Bytes} (L : HasSections m file)
     (h : WF m = true) (i : Nat) (l : ALod)
     (hl : m.lods[i]? = some l) (d : Nat) (mesh : AMesh) (hm : l.meshes[d]? = some mesh)
     (j : Nat) (s : AStream) (hs : mesh.streams[j]? = some s) (z : Nat)
@@ -1019,8 +1104,24 @@ theorem SameLayout.stream_chunk {m : AbstractModel} {file : Bytes} (L : SameLayo
     hsl.readAt _ _ (by rw [hdl, Nat.mul_comm z]; omega)]
   rfl
 
+theorem SameLayout.stream_chunk {m : AbstractModel} {file : Bytes} (L : SameLayout m file)
+    (h : WF m = true) (i : Nat) (l : ALod)
+    (hl : m.lods[i]? = some l) (d : Nat) (mesh : AMesh) (hm : l.meshes[d]? = some mesh)
+    (j : Nat) (s : AStream) (hs : mesh.streams[j]? = some s) (z : Nat)
+    (hz : z < mesh.vertexCount.toNat) :
+    (do
+      let off ← idx3 (meshRowOf m i l d mesh).vertexBufferOffsets j
+      let a ← addU32 (lodRowOf m i l).vertexDataOffset off
+      let b ← mulU32 z.toUInt32 s.stride.toUInt32
+      let c ← addU32 a b
+      match readAt file.toArray c.toNat s.stride.toNat with
+      | some d => pure d
+      | none => .error .fail : R Bytes) =
+    .ok ((s.data.drop (z * s.stride.toNat)).take s.stride.toNat) :=
+  L.geom.stream_chunk h i l hl d mesh hm j s hs z hz
+
 /-- **raw streams** -/
-theorem SameLayout.readStreams_eq {m : AbstractModel} {file : Bytes} (L : SameLayout m file)
+theorem HasSections.readStreams_eq {m : AbstractModel} {file : Bytes} (L : HasSections m file)
     (h : WF m = true) (i : Nat) (l : ALod)
     (hl : m.lods[i]? = some l) (d : Nat) (mesh : AMesh) (hm : l.meshes[d]? = some mesh) :
     readStreams file.toArray (lodRowOf m i l) (meshRowOf m i l d mesh) =
@@ -1049,6 +1150,13 @@ theorem SameLayout.readStreams_eq {m : AbstractModel} {file : Bytes} (L : SameLa
     · intro z hz
       exact L.stream_chunk h i l hl d mesh hm j s hs z hz
 
+theorem SameLayout.readStreams_eq {m : AbstractModel} {file : Bytes} (L : SameLayout m file)
+    (h : WF m = true) (i : Nat) (l : ALod)
+    (hl : m.lods[i]? = some l) (d : Nat) (mesh : AMesh) (hm : l.meshes[d]? = some mesh) :
+    readStreams file.toArray (lodRowOf m i l) (meshRowOf m i l d mesh) =
+      .ok (mesh.streams.map (·.data), mesh.streams.map (·.stride.toNat)) :=
+  L.geom.readStreams_eq h i l hl d mesh hm
+
 /-! ### 5. parts, LODs, the whole file -/
 
 /-- the part the specification reports for a mesh with mesh index `mb`, first sub-mesh `sb` -/
@@ -1063,7 +1171,7 @@ def partOf (mb sb : Nat) (mesh : AMesh) (sh : List Shape) : Part :=
       fun (i, s) => ⟨sb + i, s.indexCount, s.indexOffset⟩
     shapes := sh }
 
-theorem SameLayout.readPart_eq {m : AbstractModel} {file : Bytes} (L : SameLayout m file)
+theorem HasSections.readPart_eq {m : AbstractModel} {file : Bytes} (L : HasSections m file)
     (h : WF m = true) (hw : noWeightsByte4 m = true) (i : Nat)
     (l : ALod) (hl : m.lods[i]? = some l) (d : Nat) (mesh : AMesh) (hm : l.meshes[d]? = some mesh)
     (sh : List Shape)
@@ -1084,6 +1192,16 @@ theorem SameLayout.readPart_eq {m : AbstractModel} {file : Bytes} (L : SameLayou
   rw [R.pure_eq, R.ok_bind, leU16s_flatMap_put, readSubmeshes_eq m h i l hl d mesh hm, R.ok_bind, hsh,
     R.ok_bind, L.readStreams_eq h i l hl d mesh hm, R.ok_bind]
   rfl
+
+theorem SameLayout.readPart_eq {m : AbstractModel} {file : Bytes} (L : SameLayout m file)
+    (h : WF m = true) (hw : noWeightsByte4 m = true) (i : Nat)
+    (l : ALod) (hl : m.lods[i]? = some l) (d : Nat) (mesh : AMesh) (hm : l.meshes[d]? = some mesh)
+    (sh : List Shape)
+    (hsh : readShapes (modelData m) i (meshRowOf m i l d mesh) (verticesOf mesh) mesh.indices = .ok sh) :
+    readPart file.toArray (fileHeader m) (modelData m) i (lodRowOf m i l)
+        (psum meshCountOf m.lods i + d) =
+      .ok (partOf (psum meshCountOf m.lods i + d) (subBase m i l d) mesh sh) :=
+  L.geom.readPart_eq h hw i l hl d mesh hm sh hsh
 
 theorem parts_suffix (m : AbstractModel) (lodIx : Nat) (F : Nat → R Part) (suf : List AMesh) :
     ∀ (mb ib sb : Nat) (ps : List Part),
@@ -1125,7 +1243,7 @@ theorem meshBase_le (m : AbstractModel) (i : Nat) (l : ALod) (hl : m.lods[i]? = 
     length_flatMap' _ meshCountOf (fun _ => rfl) _]
   exact this
 
-theorem SameLayout.readLod_eq {m : AbstractModel} {file : Bytes} (L : SameLayout m file)
+theorem HasSections.readLod_eq {m : AbstractModel} {file : Bytes} (L : HasSections m file)
     (h : WF m = true) (hw : noWeightsByte4 m = true) (i : Nat)
     (l : ALod) (hl : m.lods[i]? = some l)
     (HS : ∀ d mesh sh, l.meshes[d]? = some mesh →
@@ -1150,6 +1268,17 @@ theorem SameLayout.readLod_eq {m : AbstractModel} {file : Bytes} (L : SameLayout
   intro t mesh sh ht hsh
   rw [Nat.zero_add] at hsh
   exact L.readPart_eq h hw i l hl t mesh ht sh (HS t mesh sh ht hsh)
+
+theorem SameLayout.readLod_eq {m : AbstractModel} {file : Bytes} (L : SameLayout m file)
+    (h : WF m = true) (hw : noWeightsByte4 m = true) (i : Nat)
+    (l : ALod) (hl : m.lods[i]? = some l)
+    (HS : ∀ d mesh sh, l.meshes[d]? = some mesh →
+      shapesOf m i (psum meshIndexWords l.meshes d) mesh = some sh →
+      readShapes (modelData m) i (meshRowOf m i l d mesh) (verticesOf mesh) mesh.indices = .ok sh)
+    (ps : List Part)
+    (hp : partsOf m i (psum meshCountOf m.lods i) 0 (psum lodSubCount m.lods i) l.meshes = some ps) :
+    readLod file.toArray (fileHeader m) (modelData m) i = .ok ps :=
+  L.geom.readLod_eq h hw i l hl HS ps hp
 
 theorem lods_suffix (m : AbstractModel) (F : Nat → R (List Part)) (suf : List ALod) :
     ∀ (n j mb sb : Nat) (ls : List (List Part)), j + n = m.lodCount.toNat → n ≤ suf.length →
@@ -1204,6 +1333,24 @@ theorem lods_suffix (m : AbstractModel) (F : Nat → R (List Part)) (suf : List 
             rw [← e1]
             exact this
 
+/-- all LODs, relative to the agreement of `readShapes` with `shapesOf` -/
+theorem HasSections.readLods_core {m : AbstractModel} {file : Bytes} (L : HasSections m file)
+    (h : WF m = true) (hw : noWeightsByte4 m = true)
+    (HS : ∀ i l d mesh sh, m.lods[i]? = some l → l.meshes[d]? = some mesh →
+      shapesOf m i (psum meshIndexWords l.meshes d) mesh = some sh →
+      readShapes (modelData m) i (meshRowOf m i l d mesh) (verticesOf mesh) mesh.indices = .ok sh)
+    (ls : List (List Part)) (hlv : lodsView m m.lodCount.toNat 0 0 m.lods = some ls) :
+    (List.range (modelData m).header.lodCount.toNat).mapM
+        (readLod file.toArray (fileHeader m) (modelData m)) = .ok ls := by
+  have W := wf_facts m h
+  show (List.range m.lodCount.toNat).mapM _ = _
+  rw [List.range_eq_range']
+  apply lods_suffix m _ m.lods m.lodCount.toNat 0 0 0 ls (by omega) (by have := W.lc3; have := W.lods3; omega) ?_ hlv
+  intro t l ps ht _ hp
+  rw [Nat.zero_add] at hp ⊢
+  rw [Nat.zero_add, Nat.zero_add] at hp
+  exact L.readLod_eq h hw t l ht (fun d mesh sh hm hs => HS t l d mesh sh ht hm hs) ps hp
+
 /-- the assembled theorem, relative to the agreement of `readShapes` with `shapesOf` -/
 theorem SameLayout.parse_core {m : AbstractModel} {file : Bytes} (L : SameLayout m file)
     (h : WF m = true) (hw : noWeightsByte4 m = true)
@@ -1214,21 +1361,12 @@ theorem SameLayout.parse_core {m : AbstractModel} {file : Bytes} (L : SameLayout
     fromExisting file =
       .ok { fileHeader := fileHeader m, modelData := modelData m, lods := v.lods,
             affectedBoneNames := v.affectedBoneNames, materialNames := v.materialNames } := by
-  have W := wf_facts m h
   cases hlv : lodsView m m.lodCount.toNat 0 0 m.lods with
   | none => simp [view, hlv] at hv
   | some ls =>
     simp only [view, hlv, Option.bind_eq_bind, Option.bind_some, Option.some.injEq] at hv
     subst hv
-    have hl : (List.range (modelData m).header.lodCount.toNat).mapM
-        (readLod file.toArray (fileHeader m) (modelData m)) = .ok ls := by
-      show (List.range m.lodCount.toNat).mapM _ = _
-      rw [List.range_eq_range']
-      apply lods_suffix m _ m.lods m.lodCount.toNat 0 0 0 ls (by omega) (by have := W.lc3; have := W.lods3; omega) ?_ hlv
-      intro t l ps ht _ hp
-      rw [Nat.zero_add] at hp ⊢
-      rw [Nat.zero_add, Nat.zero_add] at hp
-      exact L.readLod_eq h hw t l ht (fun d mesh sh hm hs => HS t l d mesh sh ht hm hs) ps hp
+    have hl := L.geom.readLods_core h hw HS ls hlv
     obtain ⟨rest, rest', hfh, hmd⟩ := L.hdr
     unfold fromExisting
     rw [hfh, R.ok_bind]
